@@ -133,6 +133,21 @@ theorem C01_verdict (P : Program) (F : Flags) (n : Nat) (tr : List Label) (c : C
       rw [← this]
       exact C01_depsExitedBefore P F n tr c h a x hc
 
+/-- `c01Verdict` is literally the C01 field of the verdict line the driver prints -/
+theorem monitorVerdicts_c01 (P : Program) (F : Flags) (calls : List Nat) (tr : List Label) :
+    ∃ rest, monitorVerdicts P F calls tr = "C01=" ++ ((if c01Verdict P tr then "1" else "0") ++ rest) := by
+  unfold monitorVerdicts c01Verdict
+  simp only [String.append_assoc]
+  exact ⟨_, rfl⟩
+
+/-- … so for every accepted trace the driver's verdict line starts with `C01=1` -/
+theorem C01_monitorVerdicts (P : Program) (F : Flags) (n : Nat) (tr : List Label) (c : Config)
+    (h : replay P F (init n) tr = some c) (calls : List Nat) :
+    ∃ rest, monitorVerdicts P F calls tr = "C01=1" ++ rest := by
+  obtain ⟨rest, hm⟩ := monitorVerdicts_c01 P F calls tr
+  rw [C01_verdict P F n tr c h] at hm
+  exact ⟨rest, by rw [hm, ← String.append_assoc]; rfl⟩
+
 /-! ## non-vacuity: two tasks depending on one shared `run: once` task -/
 
 /-- tasks 0 and 1 depend on task 2 (`run: once`), whose only command exits with `code` -/
